@@ -6,6 +6,7 @@ import Driver.Hash
 import Driver.TxPool
 import Driver.ConnGater
 import Driver.Exec
+import Driver.SMT
 import Driver.ReqResp
 
 def main (args : List String) : IO UInt32 := do
@@ -18,6 +19,7 @@ def main (args : List String) : IO UInt32 := do
   | ["C14"] => Driver.TxPool.main; return 0
   | ["C18"] => Driver.ConnGater.main; return 0
   | ["C16"] => Driver.Exec.main; return 0
+  | ["C10"] => Driver.SMT.main; return 0
   | ["C17"] => Driver.ReqResp.main; return 0
   | ["C01"] => Driver.BFT.main; return 0
   | _ => IO.eprintln "usage: ldriver <property-id>"; return 2
